@@ -33,7 +33,56 @@ const (
 
 type entryDef struct {
 	Name  string
-	build func(r *prng.Rand, n int) *workload
+	build func(r *prng.Rand, n int, o buildOpt) *workload
+	// CanFail: the first fork-join phase evaluates densities and returns an
+	// error for an observation no component can explain (error-path cases)
+	CanFail bool
+	// NOpt: number of option combinations besides the default (EM entry points:
+	// 1 = OptimizeEmissions false, 2 = OptimizeWeights / OptimizeTransitions
+	// false, 3 = both false)
+	NOpt int
+}
+
+// buildOpt selects the error-path and option variants of a workload.
+type buildOpt struct {
+	Bad bool // one observation on which the density evaluation fails
+	Opt int  // option combination (see entryDef.NOpt)
+}
+
+func (o buildOpt) optE() bool { return o.Opt != 1 && o.Opt != 3 } // OptimizeEmissions
+func (o buildOpt) optW() bool { return o.Opt != 2 && o.Opt != 3 } // OptimizeWeights / OptimizeTransitions
+
+func (o buildOpt) tag() string {
+	t := ""
+	switch o.Opt {
+	case 1:
+		t = ",OptimizeEmissions=false"
+	case 2:
+		t = ",OptimizeWeights/Transitions=false"
+	case 3:
+		t = ",nothing-optimized"
+	}
+	if o.Bad {
+		t += ",bad-observation"
+	}
+	return t
+}
+
+// badValue: an observation on which the density evaluation of every
+// component of the family fails: the density returns an error (non-integer
+// count) or every component has probability zero.
+func badValue(r *prng.Rand, kind string) float64 {
+	switch kind {
+	case "poisson":
+		return r.PickF([]float64{3.5, -1})
+	case "geometric":
+		return 3.5
+	case "categorical":
+		return 9
+	case "exponential":
+		return -1
+	}
+	return math.Inf(1) // normal
 }
 
 /* scalar component estimators
@@ -97,8 +146,8 @@ func scalarPdf(kind string, idx int) (stat.ScalarPdf, error) {
 /* closed-form estimators
  * -------------------------------------------------------------------------- */
 
-func buildClosedScalar(kind string) func(r *prng.Rand, n int) *workload {
-	return func(r *prng.Rand, n int) *workload {
+func buildClosedScalar(kind string) func(r *prng.Rand, n int, o buildOpt) *workload {
+	return func(r *prng.Rand, n int, o buildOpt) *workload {
 		inner := kind
 		if kind == "logTransform" || kind == "translation" {
 			inner = "normal"
@@ -171,7 +220,7 @@ func genRows2(r *prng.Rand, n, k int) [][]float64 {
 	return X
 }
 
-func buildVectorNormal(r *prng.Rand, n int) *workload {
+func buildVectorNormal(r *prng.Rand, n int, o buildOpt) *workload {
 	if n < 3 {
 		n = 3 // a covariance of < 3 points is singular: its determinant is rounding noise
 	}
@@ -200,7 +249,7 @@ func buildVectorNormal(r *prng.Rand, n int) *workload {
 	return w
 }
 
-func buildScalarId(r *prng.Rand, n int) *workload {
+func buildScalarId(r *prng.Rand, n int, o buildOpt) *workload {
 	a := genReal(r, n)
 	b := genCounts(r, n, 1)
 	X := make([][]float64, n)
@@ -232,7 +281,7 @@ func buildScalarId(r *prng.Rand, n int) *workload {
 
 // ScalarIid with n = -1 (the only configuration that accepts several rows,
 // see findings of C16) and without weights.
-func buildScalarIid(r *prng.Rand, n int) *workload {
+func buildScalarIid(r *prng.Rand, n int, o buildOpt) *workload {
 	rows := (n + 1) / 2
 	x := genReal(r, 2*rows)
 	X := make([][]float64, rows)
@@ -295,7 +344,7 @@ func vectorIdEst(idx int) (*me.VectorId, error) {
 	return me.NewVectorId(v1, v2)
 }
 
-func buildVectorId(r *prng.Rand, n int) *workload {
+func buildVectorId(r *prng.Rand, n int, o buildOpt) *workload {
 	M := genMats(r, n, 1)
 	var gamma []float64
 	variant := "unweighted"
@@ -323,11 +372,17 @@ func buildVectorId(r *prng.Rand, n int) *workload {
 
 func emNames(np, steps int) []string { return nil }
 
-func buildScalarMixture(discrete bool) func(r *prng.Rand, n int) *workload {
-	return func(r *prng.Rand, n int) *workload {
+func buildScalarMixture(discrete bool) func(r *prng.Rand, n int, o buildOpt) *workload {
+	return func(r *prng.Rand, n int, o buildOpt) *workload {
 		kind := r.Pick([]string{"normal", "poisson", "exponential", "categorical"})
 		if discrete {
 			kind = r.Pick([]string{"poisson", "categorical", "geometric"})
+		}
+		if o.Bad && kind == "categorical" {
+			// an observation outside the categories would, after an error lost by
+			// the thread pool itself (see runCase), index the estimator's count
+			// table out of range inside a pool goroutine and kill the worker
+			kind = "poisson"
 		}
 		k := r.Range(2, 3)
 		x := scalarData(r, kind, n, k)
@@ -343,8 +398,12 @@ func buildScalarMixture(discrete bool) func(r *prng.Rand, n int) *workload {
 		if discrete {
 			name = "scalarEstimator.mixture_discrete"
 		}
+		if o.Bad {
+			x[r.Intn(n)] = badValue(r, kind)
+		}
+		variant += o.tag()
 		w := &workload{Entry: name, Variant: variant, Site: "generic.mixture_em", Items: n, Terms: n * k, K: kEM,
-			Wit: map[string]any{"family": kind, "components": k, "x": x, "steps": steps, "meta": meta}}
+			Wit: map[string]any{"family": kind, "components": k, "x": x, "steps": steps, "meta": meta, "OptimizeEmissions": o.optE(), "OptimizeWeights": o.optW()}}
 		if discrete {
 			// summarised data: the EM jobs run over the distinct values
 			seen := map[float64]bool{}
@@ -369,17 +428,32 @@ func buildScalarMixture(discrete bool) func(r *prng.Rand, n int) *workload {
 				}
 			}}
 			var est stat.ScalarEstimator
-			var err error
 			if discrete {
-				est, err = se.NewDiscreteMixtureEstimator(nil, ests, emEpsilon, steps, hook)
+				// SetData + Estimate: SetData of the discrete estimator summarises the
+				// data (MixtureSummarizedDataSet); EstimateOnData is the promoted method
+				// of the embedded MixtureEstimator and would use the plain data set
+				e, err := se.NewDiscreteMixtureEstimator(nil, ests, emEpsilon, steps, hook)
+				if err != nil {
+					return nil, err
+				}
+				e.OptimizeEmissions, e.OptimizeWeights = o.optE(), o.optW()
+				if err := e.SetData(vecF(x), n); err != nil {
+					return nil, err
+				}
+				if err := e.Estimate(nil, pool); err != nil {
+					return nil, err
+				}
+				est = e
 			} else {
-				est, err = se.NewMixtureEstimator(nil, ests, emEpsilon, steps, hook)
-			}
-			if err != nil {
-				return nil, err
-			}
-			if err := est.EstimateOnData(vecF(x), gammaVec(meta), pool); err != nil {
-				return nil, err
+				e, err := se.NewMixtureEstimator(nil, ests, emEpsilon, steps, hook)
+				if err != nil {
+					return nil, err
+				}
+				e.OptimizeEmissions, e.OptimizeWeights = o.optE(), o.optW()
+				if err := e.EstimateOnData(vecF(x), gammaVec(meta), pool); err != nil {
+					return nil, err
+				}
+				est = e
 			}
 			return append(lik, params(est.GetParameters())...), nil
 		}
@@ -387,16 +461,19 @@ func buildScalarMixture(discrete bool) func(r *prng.Rand, n int) *workload {
 	}
 }
 
-func buildVectorMixture(r *prng.Rand, n int) *workload {
+func buildVectorMixture(r *prng.Rand, n int, o buildOpt) *workload {
 	kind := r.Pick([]string{"vectorNormal", "ScalarId"})
 	k := r.Range(2, 3)
-	if n < 6*k {
+	if n < 6*k || o.Bad {
 		kind = "ScalarId" // full covariances of a handful of points are singular
 	}
 	X := genRows2(r, n, k)
 	steps := r.Range(1, 3)
-	w := &workload{Entry: "vectorEstimator.mixture", Variant: kind, Site: "generic.mixture_em", Items: n, Terms: n * k, K: kEM,
-		Wit: map[string]any{"kind": kind, "components": k, "x": X, "steps": steps}}
+	if o.Bad {
+		X[r.Intn(n)][0] = math.Inf(1)
+	}
+	w := &workload{Entry: "vectorEstimator.mixture", Variant: kind + o.tag(), Site: "generic.mixture_em", Items: n, Terms: n * k, K: kEM,
+		Wit: map[string]any{"kind": kind, "components": k, "x": X, "steps": steps, "OptimizeEmissions": o.optE(), "OptimizeWeights": o.optW()}}
 	w.run = func(pool threadpool.ThreadPool) ([]float64, error) {
 		ests := make([]stat.VectorEstimator, k)
 		for i := range ests {
@@ -423,6 +500,7 @@ func buildVectorMixture(r *prng.Rand, n int) *workload {
 		if err != nil {
 			return nil, err
 		}
+		est.OptimizeEmissions, est.OptimizeWeights = o.optE(), o.optW()
 		if err := est.EstimateOnData(rowsOf(X), nil, pool); err != nil {
 			return nil, err
 		}
@@ -431,12 +509,15 @@ func buildVectorMixture(r *prng.Rand, n int) *workload {
 	return w
 }
 
-func buildMatrixMixture(r *prng.Rand, n int) *workload {
+func buildMatrixMixture(r *prng.Rand, n int, o buildOpt) *workload {
 	k := 2
 	M := genMats(r, n, k)
 	steps := r.Range(1, 3)
-	w := &workload{Entry: "matrixEstimator.mixture", Variant: "VectorId", Site: "generic.mixture_em", Items: n, Terms: n * k, K: kEM,
-		Wit: map[string]any{"components": k, "x": M, "steps": steps}}
+	if o.Bad {
+		M[r.Intn(n)][0][0] = math.Inf(1)
+	}
+	w := &workload{Entry: "matrixEstimator.mixture", Variant: "VectorId" + o.tag(), Site: "generic.mixture_em", Items: n, Terms: n * k, K: kEM,
+		Wit: map[string]any{"components": k, "x": M, "steps": steps, "OptimizeEmissions": o.optE(), "OptimizeWeights": o.optW()}}
 	w.run = func(pool threadpool.ThreadPool) ([]float64, error) {
 		ests := make([]stat.MatrixEstimator, k)
 		for i := range ests {
@@ -456,6 +537,7 @@ func buildMatrixMixture(r *prng.Rand, n int) *workload {
 		if err != nil {
 			return nil, err
 		}
+		est.OptimizeEmissions, est.OptimizeWeights = o.optE(), o.optW()
 		if err := est.EstimateOnData(matsOf(M), nil, pool); err != nil {
 			return nil, err
 		}
@@ -486,17 +568,23 @@ func bwHook(lik *[]float64) generic.BaumWelchHook {
 	}}
 }
 
-func buildVectorHmm(nested bool) func(r *prng.Rand, n int) *workload {
-	return func(r *prng.Rand, n int) *workload {
+func buildVectorHmm(nested bool) func(r *prng.Rand, n int, o buildOpt) *workload {
+	return func(r *prng.Rand, n int, o buildOpt) *workload {
 		kind := r.Pick([]string{"normal", "poisson", "categorical"})
+		if o.Bad && kind == "categorical" {
+			kind = "poisson" // see buildScalarMixture
+		}
 		m := r.Range(2, 3)
 		lens, total := seqLens(r, n)
 		x := scalarData(r, kind, total, m)
+		if o.Bad {
+			x[r.Intn(total)] = badValue(r, kind)
+		}
 		seqs := make([][]float64, n)
-		o := 0
+		off := 0
 		for q := range seqs {
-			seqs[q] = x[o : o+lens[q]]
-			o += lens[q]
+			seqs[q] = x[off : off+lens[q]]
+			off += lens[q]
 		}
 		pi, tr := probs(r, m), stochastic(r, m)
 		steps := r.Range(1, 3)
@@ -504,8 +592,9 @@ func buildVectorHmm(nested bool) func(r *prng.Rand, n int) *workload {
 		if nested {
 			name, variant = "vectorEstimator.hmm", kind+",mixture-emissions"
 		}
+		variant += o.tag()
 		w := &workload{Entry: name, Variant: variant, Site: "generic.hmm_baumWelch", Items: n, Terms: total * m * m, K: kEM,
-			Wit: map[string]any{"family": kind, "states": m, "pi": pi, "tr": tr, "sequences": seqs, "steps": steps, "mixture_emissions": nested}}
+			Wit: map[string]any{"family": kind, "states": m, "pi": pi, "tr": tr, "sequences": seqs, "steps": steps, "mixture_emissions": nested, "OptimizeEmissions": o.optE(), "OptimizeTransitions": o.optW()}}
 		w.run = func(pool threadpool.ThreadPool) ([]float64, error) {
 			ests := make([]stat.ScalarEstimator, m)
 			for c := range ests {
@@ -536,6 +625,7 @@ func buildVectorHmm(nested bool) func(r *prng.Rand, n int) *workload {
 			if err != nil {
 				return nil, err
 			}
+			est.OptimizeEmissions, est.OptimizeTransitions = o.optE(), o.optW()
 			xs := make([]ad.ConstVector, n)
 			for q := range xs {
 				xs[q] = vecF(seqs[q])
@@ -549,20 +639,23 @@ func buildVectorHmm(nested bool) func(r *prng.Rand, n int) *workload {
 	}
 }
 
-func buildMatrixHmm(r *prng.Rand, n int) *workload {
+func buildMatrixHmm(r *prng.Rand, n int, o buildOpt) *workload {
 	m := 2
 	lens, total := seqLens(r, n)
 	X := genRows2(r, total, m)
 	seqs := make([][][]float64, n)
-	o := 0
+	off := 0
 	for q := range seqs {
-		seqs[q] = X[o : o+lens[q]]
-		o += lens[q]
+		seqs[q] = X[off : off+lens[q]]
+		off += lens[q]
 	}
 	pi, tr := probs(r, m), stochastic(r, m)
 	steps := r.Range(1, 3)
-	w := &workload{Entry: "matrixEstimator.hmm", Variant: "ScalarId(normal,normal)", Site: "generic.hmm_baumWelch", Items: n, Terms: total * m * m, K: kEM,
-		Wit: map[string]any{"states": m, "pi": pi, "tr": tr, "sequences": seqs, "steps": steps}}
+	if o.Bad {
+		X[r.Intn(total)][0] = math.Inf(1)
+	}
+	w := &workload{Entry: "matrixEstimator.hmm", Variant: "ScalarId(normal,normal)" + o.tag(), Site: "generic.hmm_baumWelch", Items: n, Terms: total * m * m, K: kEM,
+		Wit: map[string]any{"states": m, "pi": pi, "tr": tr, "sequences": seqs, "steps": steps, "OptimizeEmissions": o.optE(), "OptimizeTransitions": o.optW()}}
 	w.run = func(pool threadpool.ThreadPool) ([]float64, error) {
 		ests := make([]stat.VectorEstimator, m)
 		for c := range ests {
@@ -579,6 +672,7 @@ func buildMatrixHmm(r *prng.Rand, n int) *workload {
 		if err != nil {
 			return nil, err
 		}
+		est.OptimizeEmissions, est.OptimizeTransitions = o.optE(), o.optW()
 		xs := make([]ad.ConstMatrix, n)
 		for q := range xs {
 			xs[q] = matF(seqs[q])
@@ -628,7 +722,7 @@ func genShapeSeqs(r *prng.Rand, n int) [][][]float64 {
 	return seqs
 }
 
-func buildShapeHmm(r *prng.Rand, n int) *workload {
+func buildShapeHmm(r *prng.Rand, n int, o buildOpt) *workload {
 	seqs := genShapeSeqs(r, n)
 	total := 0
 	for _, s := range seqs {
@@ -636,8 +730,12 @@ func buildShapeHmm(r *prng.Rand, n int) *workload {
 	}
 	pi, tr := probs(r, 2), stochastic(r, 2)
 	steps := r.Range(1, 3)
-	w := &workload{Entry: "matrixEstimator.shapeHmm", Variant: "categorical", Site: "generic.hmm_baumWelch", Items: n, Terms: total * 4, K: kEM,
-		Wit: map[string]any{"pi": pi, "tr": tr, "sequences": seqs, "steps": steps}}
+	if o.Bad {
+		q := r.Intn(n)
+		seqs[q][len(seqs[q])/2][0] = 9 // no category: every window over it has probability zero
+	}
+	w := &workload{Entry: "matrixEstimator.shapeHmm", Variant: "categorical" + o.tag(), Site: "generic.hmm_baumWelch", Items: n, Terms: total * 4, K: kEM,
+		Wit: map[string]any{"pi": pi, "tr": tr, "sequences": seqs, "steps": steps, "OptimizeEmissions": o.optE(), "OptimizeTransitions": o.optW()}}
 	w.run = func(pool threadpool.ThreadPool) ([]float64, error) {
 		b := make([]stat.MatrixBatchEstimator, 2)
 		for i := range b {
@@ -648,7 +746,9 @@ func buildShapeHmm(r *prng.Rand, n int) *workload {
 			b[i] = e
 		}
 		var lik []float64
-		est, err := me.NewShapeHmmEstimator(vecF(pi), matF(tr), nil, b, emEpsilon, steps, bwHook(&lik))
+		// the shape HMM estimator has no option fields: the options travel in args
+		est, err := me.NewShapeHmmEstimator(vecF(pi), matF(tr), nil, b, emEpsilon, steps, bwHook(&lik),
+			generic.BaumWelchOptimizeEmissions{Value: o.optE()}, generic.BaumWelchOptimizeTransitions{Value: o.optW()})
 		if err != nil {
 			return nil, err
 		}
@@ -682,19 +782,22 @@ func readTable(k, n int, get func(res ad.Scalar, c, i int) error) ([]float64, er
 	return out, nil
 }
 
-func buildEvalScalarMixtureData(summarized bool) func(r *prng.Rand, n int) *workload {
-	return func(r *prng.Rand, n int) *workload {
+func buildEvalScalarMixtureData(summarized bool) func(r *prng.Rand, n int, o buildOpt) *workload {
+	return func(r *prng.Rand, n int, o buildOpt) *workload {
 		kind := r.Pick([]string{"normal", "poisson", "categorical"})
 		if summarized {
 			kind = r.Pick([]string{"poisson", "categorical"})
 		}
 		k := r.Range(2, 3)
 		x := scalarData(r, kind, n, k)
+		if o.Bad {
+			x[r.Intn(n)] = badValue(r, kind)
+		}
 		name, site := "scalarEstimator.MixtureStdDataSet.EvaluateLogPdf", "scalarEstimator.mixture_data"
 		if summarized {
 			name = "scalarEstimator.MixtureSummarizedDataSet.EvaluateLogPdf"
 		}
-		w := &workload{Entry: name, Variant: kind, Site: site, Items: n, Terms: 1, Exact: true,
+		w := &workload{Entry: name, Variant: kind + o.tag(), Site: site, Items: n, Terms: 1, Exact: true,
 			Wit: map[string]any{"family": kind, "components": k, "x": x}}
 		w.run = func(pool threadpool.ThreadPool) ([]float64, error) {
 			ed := make([]stat.ScalarPdf, k)
@@ -736,10 +839,13 @@ func scalarIdPdf(idx int) (stat.VectorPdf, error) {
 	return vd.NewScalarId(d1, d2)
 }
 
-func buildEvalVectorMixtureData(r *prng.Rand, n int) *workload {
+func buildEvalVectorMixtureData(r *prng.Rand, n int, o buildOpt) *workload {
 	k := r.Range(2, 3)
 	X := genRows2(r, n, k)
-	w := &workload{Entry: "vectorEstimator.MixtureStdDataSet.EvaluateLogPdf", Variant: "ScalarId", Site: "vectorEstimator.mixture_data", Items: n, Terms: 1, Exact: true,
+	if o.Bad {
+		X[r.Intn(n)][0] = math.Inf(1)
+	}
+	w := &workload{Entry: "vectorEstimator.MixtureStdDataSet.EvaluateLogPdf", Variant: "ScalarId" + o.tag(), Site: "vectorEstimator.mixture_data", Items: n, Terms: 1, Exact: true,
 		Wit: map[string]any{"components": k, "x": X}}
 	w.run = func(pool threadpool.ThreadPool) ([]float64, error) {
 		ed := make([]stat.VectorPdf, k)
@@ -762,10 +868,13 @@ func buildEvalVectorMixtureData(r *prng.Rand, n int) *workload {
 	return w
 }
 
-func buildEvalMatrixMixtureData(r *prng.Rand, n int) *workload {
+func buildEvalMatrixMixtureData(r *prng.Rand, n int, o buildOpt) *workload {
 	k := 2
 	M := genMats(r, n, k)
-	w := &workload{Entry: "matrixEstimator.MixtureStdDataSet.EvaluateLogPdf", Variant: "VectorId", Site: "matrixEstimator.mixture_data", Items: n, Terms: 1, Exact: true,
+	if o.Bad {
+		M[r.Intn(n)][0][0] = math.Inf(1)
+	}
+	w := &workload{Entry: "matrixEstimator.MixtureStdDataSet.EvaluateLogPdf", Variant: "VectorId" + o.tag(), Site: "matrixEstimator.mixture_data", Items: n, Terms: 1, Exact: true,
 		Wit: map[string]any{"components": k, "x": M}}
 	w.run = func(pool threadpool.ThreadPool) ([]float64, error) {
 		ed := make([]stat.MatrixPdf, k)
@@ -811,14 +920,17 @@ func readHmmTable(k int, ds generic.HmmDataSet) ([]float64, error) {
 }
 
 // here the jobs are the observations: n observations in 1..3 records.
-func buildEvalVectorHmmData(summarized bool) func(r *prng.Rand, n int) *workload {
-	return func(r *prng.Rand, n int) *workload {
+func buildEvalVectorHmmData(summarized bool) func(r *prng.Rand, n int, o buildOpt) *workload {
+	return func(r *prng.Rand, n int, o buildOpt) *workload {
 		kind := r.Pick([]string{"normal", "poisson", "categorical"})
 		if summarized {
 			kind = r.Pick([]string{"poisson", "categorical"})
 		}
 		k := r.Range(2, 3)
 		x := scalarData(r, kind, n, k)
+		if o.Bad {
+			x[r.Intn(n)] = badValue(r, kind)
+		}
 		nrec := r.Range(1, 3)
 		if nrec > n {
 			nrec = n
@@ -837,7 +949,7 @@ func buildEvalVectorHmmData(summarized bool) func(r *prng.Rand, n int) *workload
 			}
 			items = len(seen)
 		}
-		w := &workload{Entry: name, Variant: kind, Site: "vectorEstimator.hmm_data", Items: items, Terms: 1, Exact: true,
+		w := &workload{Entry: name, Variant: kind + o.tag(), Site: "vectorEstimator.hmm_data", Items: items, Terms: 1, Exact: true,
 			Wit: map[string]any{"family": kind, "emissions": k, "sequences": seqs}}
 		w.run = func(pool threadpool.ThreadPool) ([]float64, error) {
 			ed := make([]stat.ScalarPdf, k)
@@ -875,9 +987,12 @@ func buildEvalVectorHmmData(summarized bool) func(r *prng.Rand, n int) *workload
 	}
 }
 
-func buildEvalMatrixHmmData(r *prng.Rand, n int) *workload {
+func buildEvalMatrixHmmData(r *prng.Rand, n int, o buildOpt) *workload {
 	k := 2
 	X := genRows2(r, n, k)
+	if o.Bad {
+		X[r.Intn(n)][0] = math.Inf(1)
+	}
 	nrec := r.Range(1, 3)
 	if nrec > n {
 		nrec = n
@@ -886,7 +1001,7 @@ func buildEvalMatrixHmmData(r *prng.Rand, n int) *workload {
 	for q := range seqs {
 		seqs[q] = X[q*n/nrec : (q+1)*n/nrec]
 	}
-	w := &workload{Entry: "matrixEstimator.HmmStdDataSet.EvaluateLogPdf", Variant: "ScalarId", Site: "matrixEstimator.hmm_data", Items: n, Terms: 1, Exact: true,
+	w := &workload{Entry: "matrixEstimator.HmmStdDataSet.EvaluateLogPdf", Variant: "ScalarId" + o.tag(), Site: "matrixEstimator.hmm_data", Items: n, Terms: 1, Exact: true,
 		Wit: map[string]any{"emissions": k, "sequences": seqs}}
 	w.run = func(pool threadpool.ThreadPool) ([]float64, error) {
 		ed := make([]stat.VectorPdf, k)
@@ -914,7 +1029,7 @@ func buildEvalMatrixHmmData(r *prng.Rand, n int) *workload {
 }
 
 // shape data set: one record of n+5 rows gives n window positions (jobs).
-func buildEvalShapeData(r *prng.Rand, n int) *workload {
+func buildEvalShapeData(r *prng.Rand, n int, o buildOpt) *workload {
 	seq := make([][]float64, n+5)
 	for i := range seq {
 		v := 0.0
@@ -923,7 +1038,10 @@ func buildEvalShapeData(r *prng.Rand, n int) *workload {
 		}
 		seq[i] = []float64{v}
 	}
-	w := &workload{Entry: "matrixEstimator.ShapeHmmDataSet.EvaluateLogPdf", Variant: "categorical", Site: "matrixEstimator.shapeHmm_data", Items: n, Terms: 1, Exact: true,
+	if o.Bad {
+		seq[len(seq)/2][0] = 9
+	}
+	w := &workload{Entry: "matrixEstimator.ShapeHmmDataSet.EvaluateLogPdf", Variant: "categorical" + o.tag(), Site: "matrixEstimator.shapeHmm_data", Items: n, Terms: 1, Exact: true,
 		Wit: map[string]any{"sequence": seq}}
 	w.run = func(pool threadpool.ThreadPool) ([]float64, error) {
 		ed := make([]stat.MatrixPdf, 2)
@@ -957,11 +1075,17 @@ func buildEvalShapeData(r *prng.Rand, n int) *workload {
 // Hook sees (variables, sum) of every evaluation.  Output layout: for every
 // evaluation [marker, #variables, #derivatives, order, variables..., value, gradient..., hessian...], then [marker, final
 // parameters; compare() aligns evaluations whose variables are bit-identical.
-func buildNumeric(r *prng.Rand, n int) *workload {
+func buildNumeric(r *prng.Rand, n int, o buildOpt) *workload {
 	kind := r.Pick([]string{"normal", "gamma"})
 	var x []float64
 	var init []float64
-	if kind == "normal" {
+	if o.Bad {
+		// Poisson density: a non-integer observation makes LogPdf return an error
+		kind = "poisson"
+		x = genCounts(r, n, 1)
+		x[r.Intn(n)] = 3.5
+		init = []float64{3.0}
+	} else if kind == "normal" {
 		x = genReal(r, n)
 		init = []float64{0.3, 1.5}
 	} else {
@@ -974,12 +1098,18 @@ func buildNumeric(r *prng.Rand, n int) *workload {
 		gamma = genGamma(r, n)
 		variant = kind + ",weighted"
 	}
+	if o.Bad {
+		variant = kind // one cell for the error path
+	}
+	variant += o.tag()
 	w := &workload{Entry: "scalarEstimator.numeric", Variant: variant, Site: "scalarEstimator.numeric", Items: n, Terms: n, K: kClosed,
 		Wit: map[string]any{"pdf": kind, "x": x, "gamma": gamma, "init": init}}
 	w.run = func(pool threadpool.ThreadPool) ([]float64, error) {
 		var pdf stat.ScalarPdf
 		var err error
-		if kind == "normal" {
+		if kind == "poisson" {
+			pdf, err = sd.NewPoissonDistribution(ad.NewFloat64(init[0]))
+		} else if kind == "normal" {
 			pdf, err = sd.NewNormalDistribution(ad.NewFloat64(init[0]), ad.NewFloat64(init[1]))
 		} else {
 			pdf, err = sd.NewGammaDistribution(ad.NewFloat64(init[0]), ad.NewFloat64(init[1]))
@@ -1033,7 +1163,7 @@ func buildNumeric(r *prng.Rand, n int) *workload {
 // threads this is by design another estimator than the sequential one, so
 // the monitor demands (a) pool of one thread == sequential, (b) for a fixed
 // pool size the result does not depend on the schedule.
-func buildLogistic(r *prng.Rand, n int) *workload {
+func buildLogistic(r *prng.Rand, n int, o buildOpt) *workload {
 	d := 3
 	rows := make([][]float64, n)
 	for i := range rows {
@@ -1079,34 +1209,34 @@ func buildLogistic(r *prng.Rand, n int) *workload {
  * -------------------------------------------------------------------------- */
 
 var entries = []entryDef{
-	{"scalarEstimator.normal", buildClosedScalar("normal")},
-	{"scalarEstimator.poisson", buildClosedScalar("poisson")},
-	{"scalarEstimator.exponential", buildClosedScalar("exponential")},
-	{"scalarEstimator.geometric", buildClosedScalar("geometric")},
-	{"scalarEstimator.negativeBinomial", buildClosedScalar("negativeBinomial")},
-	{"scalarEstimator.categorical", buildClosedScalar("categorical")},
-	{"scalarEstimator.logTransform", buildClosedScalar("logTransform")},
-	{"scalarEstimator.translation", buildClosedScalar("translation")},
-	{"vectorEstimator.normal", buildVectorNormal},
-	{"vectorEstimator.scalarId", buildScalarId},
-	{"vectorEstimator.scalarIid", buildScalarIid},
-	{"matrixEstimator.vectorId", buildVectorId},
-	{"scalarEstimator.mixture", buildScalarMixture(false)},
-	{"scalarEstimator.mixture_discrete", buildScalarMixture(true)},
-	{"vectorEstimator.mixture", buildVectorMixture},
-	{"matrixEstimator.mixture", buildMatrixMixture},
-	{"vectorEstimator.hmm", buildVectorHmm(false)},
-	{"vectorEstimator.hmm(mixture-emissions)", buildVectorHmm(true)},
-	{"matrixEstimator.hmm", buildMatrixHmm},
-	{"matrixEstimator.shapeHmm", buildShapeHmm},
-	{"scalarEstimator.MixtureStdDataSet.EvaluateLogPdf", buildEvalScalarMixtureData(false)},
-	{"scalarEstimator.MixtureSummarizedDataSet.EvaluateLogPdf", buildEvalScalarMixtureData(true)},
-	{"vectorEstimator.MixtureStdDataSet.EvaluateLogPdf", buildEvalVectorMixtureData},
-	{"matrixEstimator.MixtureStdDataSet.EvaluateLogPdf", buildEvalMatrixMixtureData},
-	{"vectorEstimator.HmmStdDataSet.EvaluateLogPdf", buildEvalVectorHmmData(false)},
-	{"vectorEstimator.HmmSummarizedDataSet.EvaluateLogPdf", buildEvalVectorHmmData(true)},
-	{"matrixEstimator.HmmStdDataSet.EvaluateLogPdf", buildEvalMatrixHmmData},
-	{"matrixEstimator.ShapeHmmDataSet.EvaluateLogPdf", buildEvalShapeData},
-	{"scalarEstimator.numeric", buildNumeric},
-	{"vectorEstimator.logisticRegression", buildLogistic},
+	{Name: "scalarEstimator.normal", build: buildClosedScalar("normal")},
+	{Name: "scalarEstimator.poisson", build: buildClosedScalar("poisson")},
+	{Name: "scalarEstimator.exponential", build: buildClosedScalar("exponential")},
+	{Name: "scalarEstimator.geometric", build: buildClosedScalar("geometric")},
+	{Name: "scalarEstimator.negativeBinomial", build: buildClosedScalar("negativeBinomial")},
+	{Name: "scalarEstimator.categorical", build: buildClosedScalar("categorical")},
+	{Name: "scalarEstimator.logTransform", build: buildClosedScalar("logTransform")},
+	{Name: "scalarEstimator.translation", build: buildClosedScalar("translation")},
+	{Name: "vectorEstimator.normal", build: buildVectorNormal},
+	{Name: "vectorEstimator.scalarId", build: buildScalarId},
+	{Name: "vectorEstimator.scalarIid", build: buildScalarIid},
+	{Name: "matrixEstimator.vectorId", build: buildVectorId},
+	{Name: "scalarEstimator.mixture", build: buildScalarMixture(false), CanFail: true, NOpt: 3},
+	{Name: "scalarEstimator.mixture_discrete", build: buildScalarMixture(true), CanFail: true, NOpt: 3},
+	{Name: "vectorEstimator.mixture", build: buildVectorMixture, CanFail: true, NOpt: 3},
+	{Name: "matrixEstimator.mixture", build: buildMatrixMixture, CanFail: true, NOpt: 3},
+	{Name: "vectorEstimator.hmm", build: buildVectorHmm(false), CanFail: true, NOpt: 3},
+	{Name: "vectorEstimator.hmm(mixture-emissions)", build: buildVectorHmm(true), CanFail: true, NOpt: 3},
+	{Name: "matrixEstimator.hmm", build: buildMatrixHmm, CanFail: true, NOpt: 3},
+	{Name: "matrixEstimator.shapeHmm", build: buildShapeHmm, CanFail: true, NOpt: 3},
+	{Name: "scalarEstimator.MixtureStdDataSet.EvaluateLogPdf", build: buildEvalScalarMixtureData(false), CanFail: true},
+	{Name: "scalarEstimator.MixtureSummarizedDataSet.EvaluateLogPdf", build: buildEvalScalarMixtureData(true), CanFail: true},
+	{Name: "vectorEstimator.MixtureStdDataSet.EvaluateLogPdf", build: buildEvalVectorMixtureData, CanFail: true},
+	{Name: "matrixEstimator.MixtureStdDataSet.EvaluateLogPdf", build: buildEvalMatrixMixtureData, CanFail: true},
+	{Name: "vectorEstimator.HmmStdDataSet.EvaluateLogPdf", build: buildEvalVectorHmmData(false), CanFail: true},
+	{Name: "vectorEstimator.HmmSummarizedDataSet.EvaluateLogPdf", build: buildEvalVectorHmmData(true), CanFail: true},
+	{Name: "matrixEstimator.HmmStdDataSet.EvaluateLogPdf", build: buildEvalMatrixHmmData, CanFail: true},
+	{Name: "matrixEstimator.ShapeHmmDataSet.EvaluateLogPdf", build: buildEvalShapeData, CanFail: true},
+	{Name: "scalarEstimator.numeric", build: buildNumeric, CanFail: true},
+	{Name: "vectorEstimator.logisticRegression", build: buildLogistic},
 }
